@@ -1555,6 +1555,7 @@ def generic_rules(prop, index, rep):
         npc += called_method_exists_rule(index, rep, rid5, mods)
         npc += container_formatted_rule(index, rep, rid5, mods)
         npc += binary_operator_rule(index, rep, rid5, mods)
+        npc += template_style_rule(index, rep, rid5, mods)
         rep.ob(rid5, "src/dendropy", "%d in-place operator methods and format calls examined" % npc, True, nontrivial=npc > 0)
     rid6 = "R%s.D" % prop[1:]
     rep.rule(rid6, "literal dispatch chains in the property's modules have no dead branch: no branch of an if/elif chain over string keywords tests only keywords that an earlier branch already accepts")
@@ -1719,6 +1720,31 @@ def container_formatted_rule(index, rep, rid, modules):
                     if isinstance(a, ast.Name) and a.id in conts:
                         rep.check(False, rid, fi.qualname, "container `%s` formatted as text" % a.id, fn_where(fi, b), "",
                                   "%s puts `%s` - bound only to %s and filled in place - into the template %r as it is: what is written is the Python repr of the container (braces, quotes, commas; arbitrary order for a set), not the items" % (fi.qualname, a.id, "/".join(sorted({type(v).__name__ if not isinstance(v, ast.Call) else v.func.id + "()" for v in binds[a.id]})), tmpl[:30]))
+    return n
+
+
+def template_style_rule(index, rep, rid, modules):
+    """a template is filled in the style it is written in: a constant with %-placeholders and no braces handed to
+    .format() comes out with the placeholders still in it (and the data dropped); a brace template under the %
+    operator raises TypeError."""
+    import re as _re
+    pc = _re.compile(r"%(?:\([^)]*\))?[-#0 +]*\d*(?:\.\d+)?[sdrfgix]")
+    n = 0
+    for m in modules:
+        for f in index.functions_in_module(m):
+            for x in ast.walk(f.node):
+                if isinstance(x, ast.Call) and isinstance(x.func, ast.Attribute) and x.func.attr == "format" and isinstance(x.func.value, ast.Constant) and isinstance(x.func.value.value, str):
+                    n += 1
+                    t = x.func.value.value
+                    bad = "{" not in t and pc.search(t.replace("%%", "")) is not None and (x.args or x.keywords)
+                    rep.check(not bad, rid, f.qualname, "%%-template filled with .format(): %r" % t[:40], fn_where(f, x), "",
+                              "%s calls .format() on `%s`, which has %%-placeholders and no braces: the text comes out with the placeholder still in it and the value is dropped, so the message names nothing" % (f.qualname, t[:60]))
+                elif isinstance(x, ast.BinOp) and isinstance(x.op, ast.Mod) and isinstance(x.left, ast.Constant) and isinstance(x.left.value, str):
+                    n += 1
+                    t = x.left.value
+                    bad = pc.search(t.replace("%%", "")) is None and "{}" in t
+                    rep.check(not bad, rid, f.qualname, "brace template under the %% operator: %r" % t[:40], fn_where(f, x), "",
+                              "%s applies %% to `%s`, which has no %%-placeholder: the operation raises TypeError (not all arguments converted) instead of producing the text" % (f.qualname, t[:60]))
     return n
 
 
